@@ -128,7 +128,20 @@ def powi(a, n: int):
 
 
 def fn(name, *args):
-    return _mk('fn', tuple(lift(x) for x in args), name)
+    args = tuple(lift(x) for x in args)
+    if name in ('abs', 'sign', 'real', 'conj') and len(args) == 1:
+        a = args[0]
+        if a.op == 'const':
+            if name == 'abs': return const(abs(a.val))
+            if name == 'sign': return const((a.val > 0) - (a.val < 0))
+            return a
+        if a.op == 'atom' and a.val[1] == 'pos':
+            return ONE if name == 'sign' else a
+        if a.op == 'atom' and a.val[1] == 'real' and name in ('real', 'conj'):
+            return a
+    if name == 'imag' and len(args) == 1 and (args[0].op == 'const' or (args[0].op == 'atom' and args[0].val[1] in ('pos', 'real'))):
+        return ZERO
+    return _mk('fn', args, name)
 
 
 def cmp(op, a, b):
